@@ -204,8 +204,14 @@ var c08RulePool = []string{
 	"  - alert: Abs\n    expr: absent(foo{job=\"x\"}) or vector(1) > bool 2\n    annotations:\n      summary: \"{{ $value | humanize }} {{ $labels.job }}\"\n",
 	"  - record: baz\n    expr: topk(5, foo) and on(a) sum(bar) by(b)\n",
 	"  - alert: Frag\n    expr: errors / sum(requests) without(instance) > 0.1\n",
+	"  - alert: Topk\n    expr: topk(5, foo) > 0\n",
+	"  - record: dup\n    expr: sum(foo)\n",
+	"  - record: dup\n    expr: sum(foo)\n",
 	"  - record: syn\n    expr: sum(foo\n",
 }
+
+// every rule of the pool but the last (the syntax error: a broken expression changes what OTHER checks report)
+func c08GoodRules() []string { return c08RulePool[:len(c08RulePool)-1] }
 
 func c08CommentTargets(proms []string) []string {
 	out := append([]string{}, checks.CheckNames...)
@@ -450,6 +456,9 @@ func runC08(args []string) int {
 type c08Scenario struct {
 	Config string `json:"config"`
 	Rules  string `json:"rules"`
+	// pint ci scenario: BaseRules is committed on main, Rules on the feature branch (rule/dependency only runs on removed rules)
+	CI        bool   `json:"ci,omitempty"`
+	BaseRules string `json:"base_rules,omitempty"`
 }
 
 type c08Variant struct {
@@ -467,7 +476,7 @@ func c08Binary(r *rand.Rand, rep *runReport, cwd string, n int) {
 		nScen = 4
 	}
 	var scens []c08Scenario
-	allRules := "groups:\n- name: g\n  rules:\n" + strings.Join(c08RulePool[:8], "")
+	allRules := "groups:\n- name: g\n  rules:\n" + strings.Join(c08GoodRules(), "")
 	scens = append(scens, c08Scenario{Config: c08Prom("prom", nil) + c08AllKinds, Rules: allRules})
 	scens = append(scens, c08Scenario{Config: c08AllKinds, Rules: allRules})
 	if nScen > 2 || true {
@@ -478,7 +487,7 @@ func c08Binary(r *rand.Rand, rep *runReport, cwd string, n int) {
 		var b strings.Builder
 		b.WriteString("groups:\n- name: g\n  rules:\n")
 		for k := 0; k < 3+r.Intn(4); k++ {
-			b.WriteString(pick(r, c08RulePool[:8]))
+			b.WriteString(pick(r, c08GoodRules()))
 		}
 		cfg := c08AllKinds
 		if r.Intn(2) == 0 {
@@ -490,6 +499,11 @@ func c08Binary(r *rand.Rand, rep *runReport, cwd string, n int) {
 		scens = append(scens, c08Scenario{Config: cfg, Rules: b.String()})
 	}
 
+	// pint ci: a recording rule that an alert depends on is removed on the feature branch
+	ciScen := len(scens)
+	scens = append(scens, c08Scenario{CI: true, Config: c08Prom("prom", nil) + c08AllKinds,
+		BaseRules: "groups:\n- name: g\n  rules:\n  - record: dep:rec\n    expr: sum(foo) without(instance)\n  - alert: UsesDep\n    expr: dep:rec > 0\n    for: 1m\n",
+		Rules:     "groups:\n- name: g\n  rules:\n  - alert: UsesDep\n    expr: dep:rec > 0\n    for: 1m\n"})
 	type job struct {
 		scen int
 		v    c08Variant
@@ -498,9 +512,22 @@ func c08Binary(r *rand.Rand, rep *runReport, cwd string, n int) {
 	var jobs []job
 	for si := range scens {
 		dir := filepath.Join(cwd, "bin", fmt.Sprintf("s%02d", si))
-		writeFile(filepath.Join(dir, "rules", "0.yml"), scens[si].Rules)
+		names := checks.CheckNames
+		if scens[si].CI {
+			writeFile(filepath.Join(dir, "rules", "0.yml"), scens[si].BaseRules)
+			git(dir, "init", "-q", "-b", "main", ".")
+			git(dir, "add", ".")
+			git(dir, "commit", "-q", "-m", "init")
+			git(dir, "checkout", "-q", "-b", "feature")
+			writeFile(filepath.Join(dir, "rules", "0.yml"), scens[si].Rules)
+			git(dir, "add", ".")
+			git(dir, "commit", "-q", "-m", "remove the recording rule")
+			names = []string{"rule/dependency", "alerts/template", "promql/series", "rule/label"}
+		} else {
+			writeFile(filepath.Join(dir, "rules", "0.yml"), scens[si].Rules)
+		}
 		vs := []c08Variant{{Kind: "baseline"}, {Kind: "offline", Global: []string{"--offline"}}}
-		for _, nme := range checks.CheckNames {
+		for _, nme := range names {
 			vs = append(vs,
 				c08Variant{Kind: "flag-disabled", Name: nme, Global: []string{"--disabled", nme}},
 				c08Variant{Kind: "cfg-disabled", Name: nme, Extra: fmt.Sprintf("checks {\n  disabled = [%q]\n}\n", nme)},
@@ -509,7 +536,7 @@ func c08Binary(r *rand.Rand, rep *runReport, cwd string, n int) {
 				c08Variant{Kind: "cfg-enabled", Name: nme, Extra: fmt.Sprintf("checks {\n  enabled = [%q]\n}\n", nme)},
 			)
 		}
-		for _, nme := range checks.CheckNames {
+		for _, nme := range names {
 			vs = append(vs,
 				// documented precedence: rule{enable} overrides checks{disabled}; rule{disable} wins over rule{enable}
 				c08Variant{Kind: "rule-enable-over-disabled", Name: nme, Extra: fmt.Sprintf("checks {\n  disabled = [%q]\n}\nrule {\n  enable = [%q]\n}\n", nme, nme)},
@@ -525,6 +552,14 @@ func c08Binary(r *rand.Rand, rep *runReport, cwd string, n int) {
 		j := &jobs[i]
 		dir := filepath.Join(cwd, "bin", fmt.Sprintf("s%02d", j.scen))
 		cfgName := fmt.Sprintf("pint_%d.hcl", i)
+		if scens[j.scen].CI {
+			// configuration and report live outside the repository
+			cfgName = filepath.Join("..", fmt.Sprintf("s%02d_cfg", j.scen), cfgName)
+			writeFile(filepath.Join(dir, cfgName), scens[j.scen].Config+j.v.Extra)
+			g := append([]string{"-c", cfgName}, j.v.Global...)
+			j.res = scRunPint(dir, filepath.Join("..", fmt.Sprintf("s%02d_cfg", j.scen), fmt.Sprintf("out_%d.json", i)), g, []string{"ci", "--base-branch", "main", "--fail-on", "fatal", "--json", "@JSON@"})
+			return
+		}
 		writeFile(filepath.Join(dir, cfgName), scens[j.scen].Config+j.v.Extra)
 		g := append([]string{"-c", cfgName}, j.v.Global...)
 		j.res = scRunPint(dir, fmt.Sprintf("out_%d.json", i), g, []string{"lint", "--min-severity", "info", "--json", "@JSON@", "rules"})
@@ -610,6 +645,7 @@ func c08Binary(r *rand.Rand, rep *runReport, cwd string, n int) {
 				j.v.Kind, j.v.Name, len(missing), first(missing), len(extra), first(extra)), desc)
 		}
 	}
+	_ = ciScen
 	rep.sample(map[string]any{"scenario": scens[0], "baseline_problems": len(base[0])})
 }
 
